@@ -32,7 +32,7 @@ Why the existing tests cannot settle it: {p['why_tests_cant']}
 
 Files the property is anchored in: {', '.join(p['anchors']['files'])}
 
-Focus for your change: other people have already seeded the changes listed below for this property; yours must be a DIFFERENT idea (different mechanism, different clause of the statement, or a different part of the API surface that the statement covers). First list the exported functions/methods of the anchored files and prefer one that none of the earlier ideas below touches. This round, aim (again - many earlier ideas of this kind are listed below, yours must differ) at UNUSUAL BUT LEGAL USE that the statement's quantifier still covers and that a test author would not think of: the same object passed or registered twice (aliasing), a caller-owned slice/map/pointer/channel mutated, reused or closed after the call, pointer identity versus deep equality, values that look like 'absent' (0, "", nil inside an interface, empty slice versus nil slice, typed nil, zero-valued struct), extreme but valid sizes, counts and durations (0, 1, negative, MaxInt, MaxInt64 nanoseconds), keys/strings with unusual characters, a callback that calls back into the same object (re-entrancy), an object used through two different wrappers or interfaces at once, a zero-value receiver (var x T; x.Method()), the method-style constructors on the utility instances versus the generic constructor functions, getters called while the object is busy, calls in an unusual but allowed ORDER (configure after first use, close twice, start twice, use before start). The change itself should look like an ordinary optimisation, clean-up or hardening, and go wrong only for such a use. Make sure the change really contradicts the statement as written (quote the clause it breaks in your NOTES.md) and is not merely a behaviour change the statement does not talk about. Prefer bugs that need a rare combination: a particular interleaving AND a particular configuration, two edits that are each harmless alone, or state that only goes wrong on the second/third use of the same object. Also consider code the anchored files DEPEND on (helpers in other files of the library that the anchored code calls), constructor variants, getters/setters and zero/negative/huge parameter values that the earlier ideas did not touch; setters or configuration changed while the object is in use; one object, option value or caller-owned slice/map reused across several calls; error, timeout, cancellation and already-closed paths; nil callbacks.
+Focus for your change: other people have already seeded the changes listed below for this property; yours must be a DIFFERENT idea (different mechanism, different clause of the statement, or a different part of the API surface that the statement covers). First list the exported functions/methods of the anchored files and prefer one that none of the earlier ideas below touches. This round, aim (again - earlier ideas of this kind are listed below, yours must differ) at COMBINATIONS OF LIBRARY PIECES as a user composes them (read README.md, the doc comments and how *_test.go uses the API): Actor + Ask + Handler; Cor + MonadIO + Handler (YieldFromIO, DoNotation); WorkerPool + BufferedChannelQueue + Invokable; Publisher + Map + Handler; SimpleAPI + SimpleHTTP + interceptors + MonadIO (Eval vs Subscribe, ObserveOn/SubscribeOn); ConcurrentQueue/Stack over the different queue kinds; Stream/Set/Maybe helpers used by the anchored code. Pick a combination of two or three pieces that the property statement still covers and break the property ONLY in that combination (each piece on its own, and the combination the existing tests use, keep working) - e.g. by changing a helper both pieces share, a default one piece hands to the other, or an assumption one piece makes about the other's goroutine, channel capacity, ownership, lifetime or close order. Prefer a change inside the files this property is anchored in. Make sure the change really contradicts the statement as written (quote the clause it breaks in your NOTES.md) and is not merely a behaviour change the statement does not talk about. Prefer bugs that need a rare combination: a particular interleaving AND a particular configuration, two edits that are each harmless alone, or state that only goes wrong on the second/third use of the same object. Also consider code the anchored files DEPEND on (helpers in other files of the library that the anchored code calls), constructor variants, getters/setters and zero/negative/huge parameter values that the earlier ideas did not touch; setters or configuration changed while the object is in use; one object, option value or caller-owned slice/map reused across several calls; error, timeout, cancellation and already-closed paths; nil callbacks.
 {ex}
 """)
 print("prepared", len(claimed), "worktrees with suffix", suffix)
